@@ -28,6 +28,7 @@ class Gen:
         self.state = {'K': None, 'mm': None, 'F': None, 'L': None}
         self.caller = [os.path.join(root, 'lib1'), os.path.join(root, 'lib2')]
         self.dup = False
+        self.reserved = set()
         self.bare = []           # (file included by bare name, directories searched at that point)
 
     def chunk(self):
@@ -80,6 +81,14 @@ class Gen:
                 self.n += 1
                 name = 'f%d.inc' % self.n
                 mode = r.choice(['same', 'same', 'caller', 'incpath_rel', 'incpath_abs', 'abs', 'subdir'])
+                # two different files may carry the same base name when the name as written tells them apart
+                # (a sub-directory, which is in no include set): the including file's own name, now and then
+                if mode == 'subdir' and r.random() < .5:
+                    cand = os.path.join(d, 'inc', os.path.basename(path))
+                    clash = any(os.path.normpath(os.path.join(x, 'inc', os.path.basename(path))) in (set(self.files) | self.reserved | {path}) for x in incset if os.path.normpath(x) != os.path.normpath(d))
+                    if cand != path and cand not in self.files and cand not in self.reserved and not clash:
+                        name = os.path.basename(path)
+                        self.reserved.add(cand)
                 if mode == 'same':
                     target, written = os.path.join(d, name), name
                 elif mode == 'caller':
